@@ -304,7 +304,7 @@ class Session:
         self.cur_ops = []
         if self.port is not None:
             self.port.ops = self.cur_ops
-        rec = {"m": m, "a": list(a), "s": s, "dead_before": dead_before, "err_before": err_before is not None, "raised": False}
+        rec = {"m": m, "a": list(a), "s": s, "dead_before": dead_before, "err_before": err_before is not None, "raised": False, "dev": self.dev}
         try:
             val = dispatch(obj, m, a, s, ws)
         except Exception as ex:  # pylint: disable=broad-except
@@ -333,7 +333,7 @@ class Session:
 def event_of(calls, dev, board, focus):
     return {"dev": dev, "focus": focus, "nick0": board.get("nick", "Lab"), "m1": bool(board.get("m1", False)), "m2": bool(board.get("m2", False)),
             "res": board.get("res", 1), "volt": board.get("volt", 300),
-            "calls": [{k: c[k] for k in ("m", "a", "s", "dead_before", "err_before", "raised", "ops", "ret", "err_set", "err_same", "port_open", "name")}
+            "calls": [{k: c[k] for k in ("m", "a", "s", "dev", "dead_before", "err_before", "raised", "ops", "ret", "err_set", "err_same", "port_open", "name")}
                       for c in calls]}
 
 
@@ -372,6 +372,9 @@ def run_script(hist, dev, board, start_connected):
     calls, drift = [], []
     try:
         for k, h in enumerate(hist):
+            if h["m"] == "<replug>":               # the environment swaps the device while the port is closed
+                sess.dev = h["s"]
+                continue
             state["env"] = [dict(e) for e in h["env"]]
             rec = sess.run_call(h["m"], h["a"], h["s"], ws=k + len(h["s"]))
             calls.append(rec)
@@ -393,8 +396,8 @@ def run_script(hist, dev, board, start_connected):
 
 def scripts_from_dump(path, ncalls):
     for st in vlib.read_dump(path, only={"hist", "pc", "dev"}, prefilter='pc = "idle"'):
-        if len(st["hist"]) == ncalls:
-            yield st["hist"], st["dev"], dict(st["hist"][0]["b0"]), st
+        if sum(1 for h in st["hist"] if h["m"] != "<replug>") == ncalls and st["hist"][-1]["m"] != "<replug>":
+            yield st["hist"], st["hist"][0]["dv"], dict(st["hist"][0]["b0"]), st        # dv = the device on the bus before the first event
 
 
 def board_of_init(b):
@@ -499,6 +502,9 @@ def random_history(rng, ncalls, fault_rate, alphabet=None, devs=("ebb_ok",), sta
     calls, script = [], []
     try:
         for k in range(ncalls):
+            if len(devs) > 1 and sess.obj.port is None and rng.random() < 0.15:
+                sess.dev = rng.choice(list(devs))                    # the device is swapped while the port is closed
+                script.append(["<replug>", [], sess.dev])
             m, a, s = random_call(rng, alphabet)
             script.append([m, a, s])
             calls.append(sess.run_call(m, a, s, ws=rng.randint(0, 3)))
